@@ -10,6 +10,9 @@ modes
   fields  generated fields x group assignments -> cfdm.write(group=True/False), cfdm.read,
           re-write; observed: acceptance, layouts (netCDF4 raw view), equality, recorded groups
   names   the netCDF-name/group accessors of cfdm.mixin.netcdf
+  fterms  a bounded parametric vertical coordinate, its bounds and terms in a non-root group; the
+          written files are stripped of the term variables' own `bounds` attributes (another
+          producer's file: CF 7.1 route only) and read back, grouped against flat
 """
 import json
 import os
@@ -477,6 +480,125 @@ def run_fields(case, scratch):
     return out
 
 
+# --------------------------------------------------------------------------- formula terms of another producer
+def _nc_find(nc, grp, name):
+    """The variable a reference written by cfdm's writer denotes (absolute path, or a bare name
+    searched from the referring group towards the root)."""
+    if name.startswith("/"):
+        g = nc
+        parts = name.split("/")[1:]
+        for p in parts[:-1]:
+            if p not in g.groups:
+                return None
+            g = g.groups[p]
+        return g.variables.get(parts[-1])
+    g = grp
+    while g is not None:
+        if name in g.variables:
+            return g.variables[name]
+        g = g.parent
+    return None
+
+
+def strip_term_bounds(fn):
+    """Make a cfdm-written file look like one of a producer that follows CF 7.1 to the letter: the
+    formula-terms variables of a bounded parametric coordinate lose their own `bounds` attribute,
+    so that their bounds are reachable only through the formula_terms attribute of the
+    coordinate's bounds variable.  Returns what was removed."""
+    nc = netCDF4.Dataset(fn, "a")
+    removed = []
+
+    def walk(g):
+        for v in g.variables.values():
+            if "formula_terms" in v.ncattrs() and "bounds" in v.ncattrs():
+                for t in str(v.getncattr("formula_terms")).split()[1::2]:
+                    tv = _nc_find(nc, g, t)
+                    if tv is None or (tv.name == v.name and tv.group().path == g.path):
+                        continue
+                    if "bounds" in tv.ncattrs():
+                        removed.append([tv.group().path, tv.name, str(tv.getncattr("bounds"))])
+                        tv.delncattr("bounds")
+        for c in g.groups.values():
+            walk(c)
+
+    walk(nc)
+    nc.close()
+    return removed
+
+
+def run_fterms(case, scratch):
+    """example_field(1) (atmosphere_hybrid_height_coordinate with bounds; terms a, b with bounds,
+    orog without): the coordinate, its bounds and the terms spanning its axis in chain[:r0]
+    (r0 >= 1), optionally the bounds variables one group deeper, the data variable in chain[:k],
+    everything else by the seeded plan; written grouped and flat, both stripped, both read."""
+    import random
+    out = {"i": case["i"]}
+    rng = random.Random(case["seed"])
+    chain, r0, k = case["chain"], case["r0"], max(case["k"], case["r0"])
+    f0 = cfdm.example_field(1)
+    f = f0.copy()
+    f.nc_set_variable_groups(chain[:k])
+    zkey = f.dimension_coordinate("atmosphere_hybrid_height_coordinate", key=True)
+    zax = f.get_data_axes(zkey)
+    bdeep = chain[:r0 + 1] if case.get("bounds_deeper") and r0 + 1 <= k else chain[:r0]
+    d0 = rng.randint(0, r0) if case.get("spread") else 0
+    for key, c in sorted(f.constructs.filter_by_data(todict=True).items()):
+        if c.nc_get_variable(None) is None:
+            continue
+        axes = f.get_data_axes(key)
+        if key == zkey or (c.construct_type == "domain_ancillary" and axes == zax):
+            c.nc_set_variable_groups(chain[:r0])
+            if c.has_bounds():
+                c.bounds.nc_set_variable_groups(bdeep)
+        elif c.construct_type == "dimension_coordinate":
+            # (its netCDF dimension goes with it)
+            c.nc_set_variable_groups(chain[:d0])
+        else:
+            # at or below every dimension's group
+            c.nc_set_variable_groups(chain[:rng.randint(r0, k)] if case.get("spread") else chain[:r0])
+    out["has_bounds_orig"] = sorted(bool(c.has_bounds()) for c in f.domain_ancillaries(todict=True).values())
+    base = os.path.join(scratch, f"c11_ft_{os.getpid()}_{case['i']}")
+    fields = {}
+    for tag, group in (("G", True), ("F", False)):
+        fn = f"{base}_{tag}.nc"
+        r = {}
+        try:
+            cfdm.write(f, fn, group=group)
+            r["removed"] = strip_term_bounds(fn)
+            r["layout"] = sorted(p for p, g in raw_layout(fn).items() if g["vars"])
+        except Exception as e:  # noqa
+            r["write_exc"] = type(e).__name__
+            r["write_msg"] = str(e)[:300]
+            out[tag] = r
+            continue
+        try:
+            gs = cfdm.read(fn)
+        except Exception as e:  # noqa
+            r["read_exc"] = type(e).__name__
+            r["read_msg"] = str(e)[:300]
+            out[tag] = r
+            continue
+        r["nfields"] = len(gs)
+        r["field_ncvars"] = [x.nc_get_variable(None) for x in gs]
+        hit = [x for x in gs if x.identity() == f0.identity()]
+        if hit:
+            g = hit[0]
+            r["equals_orig"] = eq(g, f0)
+            r["orig_equals"] = eq(f0, g)
+            r["has_bounds"] = sorted(bool(c.has_bounds()) for c in g.domain_ancillaries(todict=True).values())
+            r["alias"] = alias_field(g)
+            fields[tag] = g
+        out[tag] = r
+    if len(fields) == 2:
+        out["G_equals_F"] = eq(fields["G"], fields["F"]) is True and eq(fields["F"], fields["G"]) is True
+    for tag in ("G", "F"):
+        try:
+            os.remove(f"{base}_{tag}.nc")
+        except OSError:
+            pass
+    return out
+
+
 def run_names(case):
     out = {"i": case["i"]}
     x = cfdm.DimensionCoordinate()
@@ -517,6 +639,8 @@ def main():
                 row = run_fields(case, scratch)
             elif mode == "names":
                 row = run_names(case)
+            elif mode == "fterms":
+                row = run_fterms(case, scratch)
             else:
                 row = {"i": case["i"], "harness_err": "unknown mode"}
         except Exception as e:  # noqa
